@@ -714,7 +714,16 @@ func writeTypeConversion(w *formatting.IndentedWriter, typeChange dsl.TypeChange
 			return
 		}
 
-		fmt.Fprintf(w, "%s.resize(%s.size());\n", targetName, sourceName)
+		isFixedVector := false
+		if gt, ok := dsl.GetUnderlyingType(tc.NewType()).(*dsl.GeneralizedType); ok {
+			if vec, ok := gt.Dimensionality.(*dsl.Vector); ok && vec.Length != nil {
+				// A fixed-length vector is a std::array, which already has its size
+				isFixedVector = true
+			}
+		}
+		if !isFixedVector {
+			fmt.Fprintf(w, "%s.resize(%s.size());\n", targetName, sourceName)
+		}
 		fmt.Fprintf(w, "for (size_t i = 0; i < %s.size(); i++) {\n", sourceName)
 		w.Indented(func() {
 			tmpItemName := "item"
